@@ -12,8 +12,17 @@ pub enum Conversion {
     Degree(Degree),
     List(Vec<String>),
     Offset(i64),
-    #[serde(skip)]
+    #[serde(serialize_with = "serialize_timezone")]
     Timezone(Tz),
+}
+
+/// A timezone is serialized by its name. (It used to be skipped, which
+/// makes serializing the variant an error; rink-js unwraps that.)
+fn serialize_timezone<S>(tz: &Tz, serializer: S) -> Result<S::Ok, S::Error>
+where
+    S: serde::Serializer,
+{
+    serializer.serialize_str(tz.name())
 }
 
 #[derive(Debug, Clone, Serialize)]
